@@ -349,7 +349,17 @@ def _drop_kw(fn_name, kw):
     return edit
 
 
+def _rep(a, b):
+    def edit(t):
+        if a not in t:
+            raise KeyError(a[:40])
+        return t.replace(a, b, 1)
+    return edit
+
+
 WITNESSES = [
+    ("training half smoothed after the split", "batchie.cli.prepare_retrospective_simulation",
+     _rep("    training_screen.save_h5(args.training_output)", "    if args.plate_smoother is not None:\n        training_screen = args.plate_smoother_cls(**args.plate_smoother_params).smooth_plates(screen=training_screen, rng=rng)\n    training_screen.save_h5(args.training_output)"), ["R7"]),
     ("reveal_plates drops sample_mapping", "batchie.retrospective", _drop_kw("reveal_plates", "sample_mapping"), ["R1"]),
     ("mask_screen drops treatment_mapping", "batchie.retrospective", _drop_kw("mask_screen", "treatment_mapping"), ["R1"]),
     ("holdout drops sample_mapping", "batchie.retrospective",
